@@ -1,5 +1,7 @@
 """C11 -- cosmological distances equal their Hogg (1999) definitions."""
 import ast
+import os
+import re
 
 import sympy as sp
 
@@ -16,13 +18,17 @@ MANIFEST = dict(
          "Hogg (1999): 1/E(z) for flat and curved models, the fixed-order Gauss-Legendre integral with the affine map (5 nodes; 10 for the "
          "volume), D_C = D_H*int, D_M with sinh/sin arms and sqrt|Omega_k|/D_H, D_A = D_M/(1+z), D_L = (1+z) D_M, dV, V with 4 pi, inverse "
          "critical density (zero for z_s <= z_l) and its constant 4 pi G/c^2 against CODATA-derived value, c in C and Python equal; node / "
-         "weight arrays are written only by the rule generator on [-1,1]; switch statements are lowered as if-chains, loops that step "
+         "weight arrays are written only by the rule generator on [-1,1] (effect walk over the constructor with helpers folded in: gauleg "
+         "fills, whole-array memcpy, compute-once static tables), a private local array filled by one loop and read by a later one is read "
+         "as the values stored (loop fission); switch statements are lowered as if-chains, loops that step "
          "pointers as the same loop over an index, a struct member that caches a function of the constructor's parameters (and that no "
-         "other function writes) is read as that function; 26 C wrappers (helpers of the translation unit inlined, then lowered "
-         "as a whole): parse format, output sized from the array argument, stored term = Q(arg1[i]|arg1, arg2[i]|arg2) (after one level of "
+         "other function writes) is read as that function; 26 C wrappers (helpers of the translation unit inlined, also where they are "
+         "called inside an if-condition, then lowered as a whole, path by path, so that a helper's status code and its out-parameters "
+         "stay tied): parse format, output sized from the array argument, stored term = Q(arg1[i]|arg1, arg2[i]|arg2) (after one level of "
          "inlining), complete method table; five Python dispatchers executed on abstract scalar/array arguments (private helpers followed): "
          "scalar pattern -> suffix -> converted argument (a fast path guarded by tests that establish float64 / C-contiguous / >= 1-d counts "
-         "as the conversion; dispatch tables are followed), differing lengths or shapes raise before the two-array call; exhaustive abstract "
+         "as the conversion; dispatch tables and named tuples are followed, and where the table or the bound extension methods are put "
+         "on the object by the constructor the dispatcher is run on objects built by abstract execution of the constructor), differing lengths or shapes raise before the two-array call; exhaustive abstract "
          "evaluation of the parameter normaliser over (omega_k in {None,0,nonzero}) x (flat in {T,F}); h overrides H0, D_H = c/H0; copy "
          "and pickle argument order; object state by abstract execution of the constructor, accessors, copy(), __copy__, __deepcopy__ and "
          "__reduce__ on symbolic arguments with the attributes of self tracked: D_H = c/(100 h | H0), H0() * D_H = c, normalised parameters "
@@ -41,7 +47,7 @@ ONE = {"ez_inverse": "z", "dV": "z"}
 
 # rules that keep their verdict however the code is laid out (decided by term equality, effect analysis or dominance over
 # resolved calls); every other rule of this check is a template rule (vcheck.core.Check.obt)
-SEMANTIC = ('R11.1', 'R11.3', 'R11.4', 'R11.5::extract_parms', 'R11.6::state', 'R11.7')
+SEMANTIC = ('R11.1', 'R11.2', 'R11.3', 'R11.4', 'R11.5::extract_parms', 'R11.6::state', 'R11.7')
 
 
 def run(chk):
@@ -53,11 +59,13 @@ def run(chk):
     lib_decls = cfront.load_tu("cosmolib")
     _ENUMS.clear()
     _load_enums(lib_decls)
+    _CONSTS.clear()
+    _load_consts(lib_decls)
     lib = cfront.functions(lib_decls)
     wrap_decls = cfront.load_tu("cosmolib_pywrap")
     wrap = cfront.functions(wrap_decls)
     formulas(chk, lib)
-    quadrature(chk, lib)
+    quadrature(chk, lib, lib_decls)
     wrappers(chk, lib, wrap, wrap_decls)
     dispatch(chk, repo)
     normaliser(chk, repo)
@@ -76,6 +84,63 @@ def S(n):
 QUANT = ("ez_inverse", "ez_inverse_integral", "Dc", "Dm", "Da", "Dl", "dV", "V", "scinv")
 
 
+def _private_arrays(fn):
+    """names of the non-static local arrays of a function that are used only through subscripts (never handed to a callee, never
+    aliased, no compound assignment / increment / address of an element): their contents are exactly what the element stores of
+    the function put there"""
+    body = cfront.body_of(fn) if isinstance(fn, dict) else None
+    if not body:
+        return set()
+    names, seen = set(), set()
+    for x in cfront.walk(body):
+        if x.get("kind") == "VarDecl" and x.get("name"):
+            if x["name"] in seen:
+                names.discard(x["name"])
+                continue
+            seen.add(x["name"])
+            if x.get("storageClass") != "static" and re.search(r"\[\d+\]$", (x.get("type") or {}).get("qualType", "")):
+                names.add(x["name"])
+    if not names:
+        return names
+    ok_base = set()
+    bad = set()
+    for x in cfront.walk(body):
+        k = x.get("kind")
+        if k == "ArraySubscriptExpr":
+            ok_base.add(id(cfront.strip(x["inner"][0])))
+        if k == "CompoundAssignOperator" or (k == "UnaryOperator" and x.get("opcode") in ("++", "--", "&")):
+            tgt = cfront.strip(x["inner"][0])
+            if tgt.get("kind") == "ArraySubscriptExpr":
+                b = cfront.strip(tgt["inner"][0])
+                if b.get("kind") == "DeclRefExpr":
+                    bad.add((b.get("referencedDecl") or {}).get("name"))
+    for x in cfront.walk(body):
+        if x.get("kind") == "DeclRefExpr" and (x.get("referencedDecl") or {}).get("name") in names and id(x) not in ok_base:
+            bad.add(x["referencedDecl"]["name"])
+    return names - bad
+
+
+def _memory_names(fn):
+    """names of the local arrays and pointers of a function (parameters excluded): a term that still contains a read through one
+    of them is a read of memory the lowering has not resolved to a value"""
+    body = cfront.body_of(fn) if isinstance(fn, dict) else None
+    out = set()
+    for x in cfront.walk(body or {}):
+        if x.get("kind") == "VarDecl" and x.get("name"):
+            q = (x.get("type") or {}).get("qualType", "").rstrip()
+            if q.endswith("*") or q.endswith("]"):
+                out.add(x["name"])
+    return out
+
+
+def _unresolved_reads(t, fn):
+    """the local arrays / pointers of fn that the term t still reads through (an element whose value the lowering does not know)"""
+    if not isinstance(t, sp.Basic):
+        return []
+    mem = _memory_names(fn)
+    return sorted({a.func.__name__ for a in t.atoms(sp.core.function.AppliedUndef) if a.func.__name__ in mem})
+
+
 class _Lower(csymx.Lower):
     """csymx.Lower, extended so that the term does not depend on how the code is cut into statements and helpers:
     * a call to a private helper of the translation unit is inlined (the callee is lowered with its parameters bound to the
@@ -88,8 +153,14 @@ class _Lower(csymx.Lower):
         self.funcs = funcs or {}
         self.keep = keep
         self.depth = depth
-        self.stores = []      # element stores P[idx] = value: dict(base, index, value, loop=(lo, hi) | None)
+        self.stores = []      # element stores P[idx] = value: dict(base, index, value, loop=(lo, hi) | None, cond)
         self._loop = None
+        self._cond = sp.true
+        self._read_range = None          # (index symbol, lo, hi) of the counted loop whose body is being lowered
+        self.local_arrays = _private_arrays(fn)
+        self.locals = {x["name"] for x in cfront.walk(cfront.body_of(fn) or {}) if x.get("kind") == "VarDecl" and x.get("name")} | set(self.params) if isinstance(fn, dict) else set()
+        self.fork = False                # lower if-statements path by path (wrappers) instead of merging the arms
+        self._paths = 0
 
     def expr(self, n):
         k = n.get("kind")
@@ -100,14 +171,26 @@ class _Lower(csymx.Lower):
         if k == "DeclRefExpr" and (n.get("referencedDecl") or {}).get("kind") == "EnumConstantDecl" and n["referencedDecl"].get("name") in _ENUMS \
                 and n["referencedDecl"]["name"] not in self.env:
             return sp.Integer(_ENUMS[n["referencedDecl"]["name"]])
+        if k == "DeclRefExpr" and (n.get("referencedDecl") or {}).get("kind") == "VarDecl" and n["referencedDecl"].get("name") in _CONSTS \
+                and n["referencedDecl"]["name"] not in self.env and n["referencedDecl"]["name"] not in self.locals:
+            # a file-scope `const` object with a constant initialiser is that constant
+            return _CONSTS[n["referencedDecl"]["name"]]
         if k == "MemberExpr":
             key = cfront.render(n)
             if key in self.env:
                 return self.env[key]
+        if k == "ArraySubscriptExpr":
+            b = cfront.strip(inner[0])
+            if b.get("kind") == "DeclRefExpr" and (b.get("referencedDecl") or {}).get("name") in self.local_arrays:
+                v = self._filled(b["referencedDecl"]["name"], self.expr(inner[1]))
+                if v is not None:
+                    return v
         if k == "UnaryExprOrTypeTraitExpr":
             return sp.Symbol(cfront.render(n))
         if k == "StringLiteral":
             return sp.Symbol(n.get("value", '""'))
+        if k == "CharacterLiteral" and isinstance(n.get("value"), int):
+            return sp.Integer(n["value"])
         if k == "UnaryOperator" and n.get("opcode") == "&":
             # address of an lvalue: carries the name and the value the lvalue holds at this point
             nm = cfront.render(inner[0])
@@ -157,17 +240,108 @@ class _Lower(csymx.Lower):
 
     def run(self, stmts, cond=sp.true):
         res = []
-        for st in stmts:
+        stmts = list(stmts)
+        for pos, st in enumerate(stmts):
             st = self._canon_switch(st)
             st = self._canon_loop(st)
             st = self._canon_stepping(st)
-            if not self._store_stmt(st) and not self._map_loop(st, cond):
-                res += csymx.Lower.run(self, [st], cond)
+            if self.fork and st.get("kind") == "IfStmt":
+                return res + self._fork_if(st, stmts[pos + 1:], cond)
+            outer_cond, self._cond = self._cond, cond
+            try:
+                if not self._store_stmt(st) and not self._map_loop(st, cond):
+                    outer_rr = self._read_range
+                    self._read_range = self._counted(st) or outer_rr
+                    try:
+                        res += csymx.Lower.run(self, [st], cond)
+                    finally:
+                        self._read_range = outer_rr
+            finally:
+                self._cond = outer_cond
             for v, t in (st.get("$after") or {}).items():
                 self.env[v] = t
             if st.get("kind") == "ReturnStmt":
                 break
         return res
+
+    # -- path-by-path lowering of if-statements ----------------------------------------------------------------------------------
+    def _fork_if(self, st, rest, cond):
+        """the statements after an if-statement are lowered once per arm, each time in the state that arm leaves: what a helper
+        returned (a status code, say) and what it stored through its out-parameters stay tied to each other, and a test on a value
+        that is a constant on the path is decided"""
+        inner = [x for x in (st.get("inner", []) or []) if isinstance(x, dict) and x.get("kind")]
+        if len(inner) < 2:
+            raise csymx.CUnsupported("if-statement form (line %s)" % st.get("line"))
+        c = self.truth(self.expr(inner[0]))
+        arms = [(c, _branch_stmts(inner[1])), (sp.Not(c), _branch_stmts(inner[2]) if len(inner) > 2 else [])]
+        base_env = dict(self.env)
+        out = []
+        for take, arm in arms:
+            if take == sp.false:
+                continue
+            self._paths += 1
+            if self._paths > 600:
+                raise csymx.CUnsupported("too many paths through the function (line %s)" % st.get("line"))
+            self.env = dict(base_env)
+            out += self.run(list(arm) + list(rest), sp.And(cond, take))
+            if take == sp.true:
+                break
+        return out
+
+    # -- a private local array that one loop fills and a later loop reads (loop fission) ------------------------------------------
+    def _counted(self, st):
+        """(index symbol, lo, hi) of `for (i = lo; i < hi; i++)`, else None"""
+        if st.get("kind") != "ForStmt":
+            return None
+        init, _cv, test, _inc, _body = ((st.get("inner", []) or []) + [{}] * 5)[:5]
+        i0, t = cfront.strip(init) if init.get("kind") else {}, cfront.strip(test) if test.get("kind") else {}
+        if not (i0.get("kind") == "BinaryOperator" and i0.get("opcode") == "=" and t.get("kind") == "BinaryOperator" and t.get("opcode") in ("<", "<=")):
+            return None
+        iv = cfront.render(i0["inner"][0])
+        if cfront.render(t["inner"][0]) != iv:
+            return None
+        try:
+            return sp.Symbol(iv, integer=True), self.expr(i0["inner"][1]), self.expr(t["inner"][1]) - (1 if t["opcode"] == "<" else 0)
+        except csymx.CUnsupported:
+            return None
+
+    def _filled(self, name, idx):
+        """the value of element idx of the private local array `name`, when exactly one loop `for i in [lo, hi]: name[i] = f(i)`
+        (run under the same path condition as the read) stored into it and idx lies in [lo, hi]: f(idx).  None otherwise."""
+        recs = [s_ for s_ in self.stores if s_["base"] == sp.Symbol(name)]
+        if len(recs) != 1:
+            return None
+        r = recs[0]
+        if r["loop"] is None or r["index"] != IDX or r.get("cond") != self._cond:
+            return None
+        lo, hi = r["loop"]
+
+        def le(a, b):
+            try:
+                d = sp.simplify(sp.sympify(b) - sp.sympify(a))
+            except (TypeError, ValueError, sp.SympifyError):
+                return False
+            return d.is_number and d.is_nonnegative is True
+
+        # the range the read index sweeps: an index affine in the counter of the enclosing counted loop takes its extreme values
+        # at the two ends of that loop
+        rng = None
+        if self._read_range is not None and self._read_range[0] in getattr(idx, "free_symbols", ()):
+            rng = self._read_range
+        elif self._loop is not None and IDX in getattr(idx, "free_symbols", ()):
+            rng = (IDX,) + tuple(self._loop)
+        if rng is None:
+            ends = [idx]
+        else:
+            try:
+                if sp.Poly(idx, rng[0]).degree() > 1:
+                    return None
+            except sp.PolynomialError:
+                return None
+            ends = [idx.subs(rng[0], rng[1]), idx.subs(rng[0], rng[2])]
+        if not all(le(lo, e_) and le(e_, hi) for e_ in ends):
+            return None
+        return r["value"].subs(IDX, idx)
 
     # -- switch: an if / else-if chain over the case labels (no fall-through between non-empty groups) ---------------------------
     def _canon_switch(self, st):
@@ -366,7 +540,8 @@ class _Lower(csymx.Lower):
                 return True
             return False
         if lhs.get("kind") == "ArraySubscriptExpr":
-            self.stores.append({"base": self.expr(lhs["inner"][0]), "index": self.expr(lhs["inner"][1]), "value": self.expr(st["inner"][1]), "loop": self._loop})
+            self.stores.append({"base": self.expr(lhs["inner"][0]), "index": self.expr(lhs["inner"][1]), "value": self.expr(st["inner"][1]), "loop": self._loop,
+                                "cond": self._cond})
             return True
         return False
 
@@ -476,6 +651,26 @@ def _load_enums(decls):
                     continue
                 _ENUMS[c["name"]] = nxt
                 nxt += 1
+
+
+_CONSTS = {}
+
+
+def _load_consts(decls):
+    """name -> value of the file-scope objects declared `const` with an initialiser that is a constant expression of literals"""
+    for d in decls:
+        if d.get("kind") != "VarDecl" or not d.get("name") or not re.search(r"\bconst\b", (d.get("type") or {}).get("qualType", "")) \
+                or "*" in (d.get("type") or {}).get("qualType", ""):
+            continue
+        ini = [c for c in d.get("inner", []) or [] if isinstance(c, dict) and c.get("kind")]
+        if not ini or any(x.get("kind") in ("DeclRefExpr", "CallExpr", "MemberExpr") and (x.get("referencedDecl") or {}).get("kind") != "EnumConstantDecl" for x in cfront.walk(ini[-1])):
+            continue
+        try:
+            v = csymx.Lower({"inner": []}).expr(ini[-1])
+        except (csymx.CUnsupported, KeyError, TypeError, ValueError):
+            continue
+        if isinstance(v, sp.Basic) and v.is_number:
+            _CONSTS[d["name"]] = v
 
 
 POS = sp.Symbol("K_pos", positive=True)
@@ -653,6 +848,10 @@ def formulas(chk, lib):
         if t is not None and cached and t.free_symbols & set(cached):
             # a member that caches a function of the constructor's parameters is read as that function
             t = t.subs(cached, simultaneous=True)
+        mem = _unresolved_reads(t, lib[name])
+        if mem:
+            chk.ob("R11.1", name + "::lowered", None, W, "the value %s returns is read from local memory (%s) whose contents the lowering could not resolve to a term (found %s)" % (name, ", ".join(mem), t))
+            return None
         return t
 
     i = IDX
@@ -720,13 +919,301 @@ def formulas(chk, lib):
         chk.ob("R11.1", "cosmo_new::parameters-stored", all(v == S(m) for m, v in cp.items()), W, "the five parameters are stored unmodified (%s)" % cp)
 
 
-def quadrature(chk, lib):
+_UNKNOWN_CONTENT = ("unknown",)
+_UNSET = ("never written",)
+
+
+def _type_bytes(q):
+    """size in bytes of a C object type of the kinds that occur here (arrays of double / float / int), else None"""
+    q = re.sub(r"\b(const|volatile|restrict)\b", "", q or "").strip()
+    m = re.match(r"^(.*?)((?:\s*\[\d+\])*)$", q)
+    base, dims = m.group(1).strip(), re.findall(r"\[(\d+)\]", m.group(2))
+    unit = {"double": 8, "float": 4, "int": 4, "unsigned int": 4, "char": 1, "unsigned char": 1, "long": 8, "unsigned long": 8}.get(base)
+    if unit is None:
+        return None
+    for d in dims:
+        unit *= int(d)
+    return unit
+
+
+def _c_int(n):
+    """the value of an integer constant expression (literals, enumerators, sizeof of the simple types above, + - *), else None"""
+    n = cfront.strip(n)
+    k = n.get("kind")
+    inner = n.get("inner", []) or []
+    if k == "IntegerLiteral":
+        try:
+            return int(n["value"])
+        except (KeyError, ValueError):
+            return None
+    if k == "DeclRefExpr" and (n.get("referencedDecl") or {}).get("kind") == "EnumConstantDecl":
+        return _ENUMS.get(n["referencedDecl"].get("name"))
+    if k == "UnaryExprOrTypeTraitExpr" and n.get("name") == "sizeof":
+        q = (n.get("argType") or {}).get("qualType") or ((cfront.strip(inner[0]).get("type") or {}).get("qualType") if inner else None)
+        return _type_bytes(q) if q else None
+    if k == "BinaryOperator" and n.get("opcode") in ("*", "+", "-"):
+        a, b = _c_int(inner[0]), _c_int(inner[1])
+        if a is None or b is None:
+            return None
+        return {"*": a * b, "+": a + b, "-": a - b}[n["opcode"]]
+    return None
+
+
+def _node_tables(lib):
+    """What the constructor leaves in the array members of the struct it returns, by an effect walk over cosmo_new with the helpers
+    of the library folded in: the rule generator gauleg(a, b, n, X, W) fills X with the nodes and W with the weights of the n-point
+    rule on [a, b]; memcpy / memmove of a whole array hands the contents on; a block guarded by a function-local static flag that
+    the block itself sets (compute once, keep for the life of the process) leaves its static tables filled whenever control is
+    past it; anything written under a condition, or that an unrecognised callee could reach, is unknown.
+    Returns (list of {member: content} -- one per return of a non-null object --, reasons why contents are unknown)."""
+    def resolve(name):
+        if name in ("cosmo_new", "gauleg") or name in QUANT or name in csymx.MATH:
+            return None
+        return lib.get(name)
+
+    fn = _inline_helpers(lib["cosmo_new"], resolve)
+    body = cfront.body_of(fn)
+    statics, declared, init0 = set(), set(), {}
+    for x in cfront.walk(body):
+        if x.get("kind") == "VarDecl" and x.get("name"):
+            declared.add(x["name"])
+            if x.get("storageClass") == "static":
+                statics.add(x["name"])
+                ini = [c for c in x.get("inner", []) or [] if isinstance(c, dict) and c.get("kind")]
+                init0[x["name"]] = (not ini) or _c_int(ini[-1]) == 0
+    ptr, content, why, snaps = {}, {}, [], []
+    lw = _Lower(fn, None, {})
+
+    def num(n):
+        try:
+            v = lw.expr(n)
+        except (csymx.CUnsupported, KeyError, TypeError):
+            return None
+        return v if isinstance(v, sp.Basic) and v.is_number else None
+
+    def key(n):
+        n = cfront.strip(n)
+        k = n.get("kind")
+        if k == "MemberExpr" and n.get("inner"):
+            b = cfront.strip(n["inner"][0])
+            if b.get("kind") == "DeclRefExpr":
+                v = b["referencedDecl"]["name"]
+                return "%s.%s" % (ptr.get(v, v) if n.get("isArrow") else v, n.get("name"))
+            return None
+        if k == "DeclRefExpr":
+            v = n["referencedDecl"]["name"]
+            return ptr.get(v, v)
+        if k == "UnaryOperator" and n.get("opcode") == "&":
+            t = cfront.strip(n["inner"][0])
+            if t.get("kind") == "ArraySubscriptExpr" and _c_int(t["inner"][1]) == 0:
+                return key(t["inner"][0])
+        return None
+
+    def arr_bytes(n):
+        n = cfront.strip(n)
+        return _type_bytes((n.get("type") or {}).get("qualType")) if n.get("kind") in ("MemberExpr", "DeclRefExpr") and "[" in (n.get("type") or {}).get("qualType", "") else None
+
+    def base_of(k_):
+        return k_.split(".")[0]
+
+    def put(k_, v, conditional, once):
+        if k_ is None:
+            why.append("a write to something that is not a named array")
+            return
+        if conditional or (once and base_of(k_) not in statics):
+            v = _UNKNOWN_CONTENT
+            why.append("%s is written under a condition" % k_)
+        content[k_] = v
+
+    def get(k_):
+        if k_ is None:
+            return _UNKNOWN_CONTENT
+        if k_ in content:
+            return content[k_]
+        # nothing in the function wrote it: definite for storage the function itself declares, unknown for anything else
+        return _UNSET if base_of(k_) in declared and not base_of(k_).startswith("<") else _UNKNOWN_CONTENT
+
+    def flag_writes(f):
+        out = []
+        for x in cfront.walk(body):
+            k = x.get("kind")
+            if k == "CompoundAssignOperator" or (k == "BinaryOperator" and x.get("opcode") == "=") or (k == "UnaryOperator" and x.get("opcode") in ("++", "--", "&")):
+                t = cfront.strip(x["inner"][0])
+                if t.get("kind") == "DeclRefExpr" and t["referencedDecl"]["name"] == f:
+                    out.append(x)
+        return out
+
+    def once_flag(st):
+        """the flag of `if (!flag) { ...; flag = <non-zero>; }` with flag a zero-initialised static written nowhere else"""
+        inner = [x for x in st.get("inner", []) or [] if isinstance(x, dict) and x.get("kind")]
+        if len(inner) != 2:
+            return None
+        c = cfront.strip(inner[0])
+        f = None
+        if c.get("kind") == "UnaryOperator" and c.get("opcode") == "!":
+            t = cfront.strip(c["inner"][0])
+            f = t["referencedDecl"]["name"] if t.get("kind") == "DeclRefExpr" else None
+        elif c.get("kind") == "BinaryOperator" and c.get("opcode") == "==":
+            for a, b in ((c["inner"][0], c["inner"][1]), (c["inner"][1], c["inner"][0])):
+                t = cfront.strip(a)
+                if t.get("kind") == "DeclRefExpr" and _c_int(b) == 0:
+                    f = t["referencedDecl"]["name"]
+        if f is None or f not in statics or not init0.get(f):
+            return None
+        top = _branch_stmts(inner[1])
+        sets = [x for x in top if x.get("kind") == "BinaryOperator" and x.get("opcode") == "=" and cfront.strip(x["inner"][0]).get("kind") == "DeclRefExpr"
+                and cfront.strip(x["inner"][0])["referencedDecl"]["name"] == f and (_c_int(x["inner"][1]) or 0) != 0]
+        ws = flag_writes(f)
+        if not sets or len(ws) != len(sets) or any(w not in sets for w in ws):
+            return None
+        if any(x.get("kind") in ("ReturnStmt", "GotoStmt", "BreakStmt", "ContinueStmt") for t_ in top for x in cfront.walk(t_)):
+            return None
+        return f
+
+    SAFE = ("calloc", "malloc", "free", "gauleg", "memcpy", "memmove", "__builtin_memcpy", "__builtin_memmove", "__builtin___memcpy_chk", "__builtin___memmove_chk")
+
+    def other_calls(st, skip=None):
+        for x in cfront.walk(st):
+            if x.get("kind") != "CallExpr" or x is skip:
+                continue
+            nm = cfront.callee_name(x)
+            if nm in SAFE or nm in csymx.MATH:
+                continue
+            for a in x["inner"][1:]:
+                if (cfront.strip(a).get("type") or {}).get("qualType", "").rstrip().endswith("*") or any(
+                        (y.get("type") or {}).get("qualType", "").rstrip().endswith(("*", "]")) for y in cfront.walk(a) if y.get("kind") in ("DeclRefExpr", "MemberExpr")):
+                    why.append("the callee %s receives a pointer (line %s)" % (nm or cfront.render(x["inner"][0]), x.get("line")))
+                    for k_ in list(content):
+                        content[k_] = _UNKNOWN_CONTENT
+                    content["<all>"] = _UNKNOWN_CONTENT
+                    break
+
+    def assign_ptr(v, rhs):
+        r = cfront.strip(rhs)
+        if r.get("kind") == "UnaryOperator" and r.get("opcode") == "&" and cfront.strip(r["inner"][0]).get("kind") == "DeclRefExpr":
+            ptr[v] = cfront.strip(r["inner"][0])["referencedDecl"]["name"]
+        elif r.get("kind") == "DeclRefExpr":
+            u = r["referencedDecl"]["name"]
+            ptr[v] = ptr.get(u, u)
+        elif r.get("kind") == "CallExpr" and cfront.callee_name(r) in ("calloc", "malloc"):
+            ptr.pop(v, None)
+            declared.add(v)
+            if cfront.callee_name(r) == "malloc":
+                ptr[v] = "<malloc %s>" % v
+        else:
+            ptr[v] = "<unknown %s>" % v
+
+    def walk(stmts, conditional, once):
+        for st in stmts:
+            k = st.get("kind")
+            inner = [x for x in st.get("inner", []) or [] if isinstance(x, dict)]
+            if k == "DeclStmt":
+                for v in inner:
+                    ini = [c for c in v.get("inner", []) or [] if isinstance(c, dict) and c.get("kind")]
+                    if v.get("kind") == "VarDecl" and ini:
+                        other_calls(ini[-1])
+                        if (v.get("type") or {}).get("qualType", "").rstrip().endswith("*"):
+                            assign_ptr(v["name"], ini[-1])
+                continue
+            if k == "BinaryOperator" and st.get("opcode") == "=":
+                lhs = cfront.strip(inner[0])
+                other_calls(inner[1])
+                if lhs.get("kind") == "DeclRefExpr" and (lhs.get("type") or {}).get("qualType", "").rstrip().endswith("*"):
+                    if conditional:
+                        ptr[lhs["referencedDecl"]["name"]] = "<unknown %s>" % lhs["referencedDecl"]["name"]
+                    else:
+                        assign_ptr(lhs["referencedDecl"]["name"], inner[1])
+                elif lhs.get("kind") == "ArraySubscriptExpr":
+                    put(key(lhs["inner"][0]), _UNKNOWN_CONTENT, conditional, once)
+                elif lhs.get("kind") == "UnaryOperator" and lhs.get("opcode") == "*":
+                    put(key(lhs["inner"][0]), _UNKNOWN_CONTENT, conditional, once)
+                continue
+            if k == "CallExpr" and cfront.callee_name(st) == "gauleg" and len(inner) == 6:
+                a, b, n = num(inner[1]), num(inner[2]), num(inner[3])
+                for which, tgt in ((0, inner[4]), (1, inner[5])):
+                    put(key(tgt), ("gauleg", a, b, n, which) if None not in (a, b, n) else _UNKNOWN_CONTENT, conditional, once)
+                continue
+            if k == "CallExpr" and cfront.callee_name(st) in SAFE[4:] and len(inner) >= 4:
+                d, s_, nbytes = key(inner[1]), key(inner[2]), _c_int(inner[3])
+                db, sb = arr_bytes(inner[1]), arr_bytes(inner[2])
+                if d is not None and nbytes is not None and db is not None and db == sb == nbytes:
+                    put(d, get(s_), conditional, once)
+                else:
+                    why.append("%s at line %s does not copy one whole array onto another of the same size" % (cfront.callee_name(st), st.get("line")))
+                    put(d, _UNKNOWN_CONTENT, conditional, once)
+                continue
+            if k == "IfStmt":
+                kids = [x for x in inner if x.get("kind")]
+                other_calls(kids[0])
+                if once_flag(st) is not None:
+                    walk(_branch_stmts(kids[1]), conditional, True)
+                else:
+                    for arm in kids[1:]:
+                        walk(_branch_stmts(arm), True, once)
+                continue
+            if k in ("ForStmt", "WhileStmt", "DoStmt"):
+                kids = [x for x in inner if x.get("kind")]
+                for part in kids:
+                    if part.get("kind") == "CompoundStmt" or part is kids[-1 if k != "DoStmt" else 0]:
+                        walk(_branch_stmts(part), True, once)
+                    else:
+                        other_calls(part)
+                continue
+            if k == "CompoundStmt":
+                walk(inner, conditional, once)
+                continue
+            if k == "ReturnStmt":
+                v = cfront.strip(inner[0]) if inner else None
+                if v is not None and v.get("kind") == "DeclRefExpr":
+                    o = ptr.get(v["referencedDecl"]["name"], v["referencedDecl"]["name"])
+                    snaps.append({m: (get("%s.%s" % (o, m)) if "<all>" not in content else _UNKNOWN_CONTENT) for m in ("x", "w", "vx", "vw")})
+                elif v is not None and not (v.get("kind") == "IntegerLiteral" and v.get("value") == "0") and cfront.render(v) not in ("NULL", "0", "(void *)0"):
+                    snaps.append({m: _UNKNOWN_CONTENT for m in ("x", "w", "vx", "vw")})
+                    why.append("cosmo_new returns %s" % cfront.render(v))
+                continue
+            other_calls(st)
+
+    walk(body.get("inner", []) or [], False, False)
+    return snaps, why
+
+
+def _const_in_header(hdr, name, decls=None):
+    """the value a header gives the named constant: `#define NAME v`, `[static] const T NAME = v;` or an enumerator; None when the
+    header does not define it in one of these forms"""
+    m = re.search(r"^[ \t]*#[ \t]*define[ \t]+%s[ \t]+\(?([-+0-9.eE]+)[uUlLfF]*\)?[ \t]*(?:/[/*].*)?$" % re.escape(name), hdr, re.M) or \
+        re.search(r"\bconst\s+(?:unsigned\s+|long\s+)*(?:int|long|double|float|size_t)\s+%s\s*=\s*([-+0-9.eE]+)[uUlLfF]*\s*;" % re.escape(name), hdr)
+    if m:
+        try:
+            return float(m.group(1))
+        except ValueError:
+            return None
+    if name in _ENUMS:
+        return float(_ENUMS[name])
+    return None
+
+
+def quadrature(chk, lib, decls=()):
     W = "esutil/cosmology/cosmolib.c"
-    new = lib["cosmo_new"]
-    calls = [cfront.render(c) for c in cfront.calls_in(new) if cfront.callee_name(c) == "gauleg"]
-    ok = sorted(calls) == sorted(["gauleg(-1.0, 1.0, 5, c->x, c->w)", "gauleg(-1.0, 1.0, 10, c->vx, c->vw)"]) or \
-        sorted(c.replace("-1.0", "-1").replace("1.0", "1") for c in calls) == sorted(["gauleg(-1, 1, 5, c->x, c->w)", "gauleg(-1, 1, 10, c->vx, c->vw)"])
-    chk.ob("R11.2", "cosmo_new::rules-on-unit-interval", ok, W, "nodes/weights are the 5- and 10-point rules on [-1,1] (%s)" % calls)
+    H = "esutil/cosmology/cosmolib.h"
+    # the node / weight members of the struct every distance function integrates with hold the 5- and the 10-point rule on [-1, 1]:
+    # decided on what the constructor leaves in them (see _node_tables), not on how the call that fills them is spelled
+    try:
+        snaps, why = _node_tables(lib)
+    except (csymx.CUnsupported, AnalysisError, KeyError, IndexError, TypeError) as e:
+        snaps, why = [], ["cosmo_new is outside the subset the effect walk follows (%s)" % e]
+    want = {"x": ("gauleg", -1, 1, 5, 0), "w": ("gauleg", -1, 1, 5, 1), "vx": ("gauleg", -1, 1, 10, 0), "vw": ("gauleg", -1, 1, 10, 1)}
+
+    def verdict(got, ref):
+        if got == _UNKNOWN_CONTENT:
+            return None
+        if got == _UNSET or got[0] != "gauleg":
+            return False
+        return bool(all(sp.sympify(a) == sp.sympify(b) for a, b in zip(got[1:], ref[1:])))
+
+    ok = _all3([verdict(sn[m], want[m]) for sn in snaps for m in want]) if snaps else None
+    chk.ob("R11.2", "cosmo_new::rules-on-unit-interval", ok, W,
+           "x, w hold the nodes and weights of gauleg(-1, 1, 5) and vx, vw those of gauleg(-1, 1, 10) in every object cosmo_new returns (found %s%s)" % (
+               snaps, "; " + "; ".join(dict.fromkeys(why)) if why else ""))
     # who may write the node/weight arrays
     writers = set()
     for name, fn in lib.items():
@@ -736,6 +1223,25 @@ def quadrature(chk, lib):
                 if l.startswith(("c->x[", "c->w[", "c->vx[", "c->vw[")):
                     writers.add(name)
     chk.ob("R11.2", "node-weight-arrays::no-other-writer", not writers, W, "no function other than the rule generator stores into the node/weight arrays (%s)" % sorted(writers))
+    # the documented orders: the lengths of the node / weight members of struct cosmo and the constants that name them
+    lens = {}
+    for d in decls:
+        for r in cfront.walk(d):
+            if r.get("kind") == "RecordDecl" and r.get("name") == "cosmo" and r.get("inner"):
+                for f in r["inner"]:
+                    if f.get("kind") == "FieldDecl" and f.get("name") in ("x", "w", "vx", "vw"):
+                        m = re.match(r"^\s*double\s*\[(\d+)\]\s*$", (f.get("type") or {}).get("qualType", ""))
+                        lens[f["name"]] = int(m.group(1)) if m else None
+    try:
+        hdr = open(os.path.join(__import__("vcheck.core", fromlist=["REPO"]).REPO, H)).read()
+    except OSError:
+        hdr = ""
+    consts = {n: _const_in_header(hdr, n) for n in ("NPTS", "VNPTS")}
+    wantl = {"x": 5, "w": 5, "vx": 10, "vw": 10}
+    vals = [None if lens.get(m) is None else lens[m] == n for m, n in wantl.items()]
+    vals += [c == n for c, n in ((consts["NPTS"], 5), (consts["VNPTS"], 10)) if c is not None]
+    chk.ob("R11.2", "constants::documented-orders", _all3(vals), H,
+           "the node/weight members of struct cosmo have 5 (x, w) and 10 (vx, vw) elements and NPTS = 5, VNPTS = 10 where the header names them (members %s, constants %s)" % (lens, consts))
 
 
 # --------------------------------------------------------------------------
@@ -851,6 +1357,41 @@ def _inline_helpers(fn, resolve, rounds=3):
             stmts, _ = conv(stmts, target)
         return copy_in + stmts
 
+    def ref(name):
+        return {"kind": "DeclRefExpr", "type": {"qualType": "int"}, "referencedDecl": {"kind": "VarDecl", "name": name, "type": {"qualType": "int"}}}
+
+    def declare(name, init=None):
+        return {"kind": "DeclStmt", "inner": [{"kind": "VarDecl", "name": name, "type": {"qualType": "int"}, "inner": [init] if init is not None else []}]}
+
+    def hoist(e):
+        """(statements to run first, the condition with each helper call replaced by the local that holds its result)"""
+        n = e
+        while isinstance(n, dict) and n.get("kind") in ("ImplicitCastExpr", "ParenExpr") and n.get("inner"):
+            n = n["inner"][0]
+        k = n.get("kind")
+        if k == "CallExpr":
+            decl, call = helper_of(n)
+            if decl is None:
+                return [], e
+            t = "c%d$" % next(counter)
+            return [declare(t)] + expand(decl, call, "assign", ref(t)), ref(t)
+        if k == "UnaryOperator" and n.get("opcode") == "!":
+            pre, c2 = hoist(n["inner"][0])
+            return (pre, dict(n, inner=[c2])) if pre else ([], e)
+        if k == "BinaryOperator" and n.get("opcode") in ("==", "!=", "<", ">", "<=", ">="):
+            pa, ca = hoist(n["inner"][0])
+            pb, cb = hoist(n["inner"][1])
+            return (pa + pb, dict(n, inner=[ca, cb])) if (pa or pb) else ([], e)
+        if k == "BinaryOperator" and n.get("opcode") in ("&&", "||"):
+            pa, ca = hoist(n["inner"][0])
+            pb, cb = hoist(n["inner"][1])
+            if not pb:
+                return (pa, dict(n, inner=[ca, cb])) if pa else ([], e)
+            t = "c%d$" % next(counter)
+            again = ref(t) if n["opcode"] == "&&" else {"kind": "UnaryOperator", "opcode": "!", "isPostfix": False, "inner": [ref(t)]}
+            return pa + [declare(t, ca), {"kind": "IfStmt", "line": n.get("line"), "hasElse": False, "inner": [again, _compound(pb + [assign(ref(t), cb)])]}], ref(t)
+        return [], e
+
     def rewrite(stmts):
         out = []
         changed = False
@@ -885,6 +1426,20 @@ def _inline_helpers(fn, resolve, rounds=3):
                 out.extend(rep)
                 changed = True
                 continue
+            if k == "IfStmt" and inner:
+                # `if (h(..) != 0) ...`, `if (!h(..) || g(..)) ...`: the helper calls of the condition are evaluated into fresh
+                # locals by statements placed before the if (in evaluation order, the right operand of && / || only when the
+                # left one does not decide), so that they are in statement position and are folded in like any other
+                try:
+                    pre, cond2 = hoist(inner[0])
+                except _NoInline:
+                    pre = []
+                if pre:
+                    out.extend(pre)
+                    st = dict(st)
+                    st["inner"] = [cond2] + list(inner[1:])
+                    inner = st["inner"]
+                    changed = True
             if k == "IfStmt":
                 st = dict(st)
                 ni = [inner[0]]
@@ -985,6 +1540,7 @@ def wrappers(chk, lib, wrap, decls):
         key_c = wname + "::computes-%s-of-its-arguments" % q
         params = cfront.params_of(fn)
         L = _Lower(fn, {params[0]: S("self")} if params else None, {}, keep=())
+        L.fork = True
         try:
             rets = L.run(cfront.body_of(fn).get("inner", []) or [])
         except csymx.CUnsupported as e:
@@ -1002,14 +1558,24 @@ def wrappers(chk, lib, wrap, decls):
             else:
                 chk.ob("R11.3", key_c, all(same(v) for v in vals), W, "returns %s as a Python float (found %s)" % (ref_call, vals))
             return
-        st = [s_ for s_ in L.stores]
+        st = []
+        for s_ in L.stores:
+            # the same store reached along several paths is one store
+            if not any(all(s_[f] == o[f] for f in ("base", "index", "value", "loop")) for o in st):
+                st.append(s_)
         if len(st) != 1 or st[0]["loop"] is None:
             for suffix in ("::computes-%s-of-its-arguments" % q, "::output-sized-from-array-argument", "::loop-over-all-elements", "::returns-new-array"):
                 chk.ob("R11.3", wname + suffix, None, W, "expected exactly one loop storing into one output array, found stores %s" % [(s_["base"], s_["index"]) for s_ in st])
             return
         s0 = st[0]
         lo, hi = s0["loop"]
-        chk.ob("R11.3", key_c, bool(s0["index"] == IDX) and same(s0["value"]), W, "stores %s (found [%s] = %s)" % (ref_call, s0["index"], s0["value"]))
+        okv = bool(s0["index"] == IDX) and same(s0["value"])
+        unres = _unresolved_reads(s0["value"], fn)
+        if not okv and unres:
+            # the stored value reads an element through a local pointer the lowering has no value for (set through a channel it does
+            # not follow): nothing identified contradicts the rule
+            okv = None
+        chk.ob("R11.3", key_c, okv, W, "stores %s (found [%s] = %s%s)" % (ref_call, s0["index"], s0["value"], "; unresolved reads through %s" % unres if unres else ""))
         arr = [names[k] for k, (n, v) in enumerate(argspec) if v and k < len(names)]
 
         def is_size(t):
@@ -1020,12 +1586,25 @@ def wrappers(chk, lib, wrap, decls):
         is_alloc = alloc is not None and isinstance(alloc, sp.core.function.AppliedUndef) and len(alloc.args) >= 3 and (
             "PyArray_API" in _fname(alloc) or _fname(alloc) in ("PyArray_Zeros", "PyArray_ZEROS", "PyArray_Empty", "PyArray_EMPTY", "PyArray_SimpleNew"))
         asize = alloc.args[1].args[1] if is_alloc and _fname(alloc.args[1]) == "addr" else None
+        unset_locals = {x["name"] for x in cfront.walk(cfront.body_of(fn)) if x.get("kind") == "VarDecl" and x.get("name")} - set(names)
+
+        def unknown_in(t):
+            """local variables the term still names: read before any assignment the lowering has seen (set through an out-parameter
+            of a callee it did not follow, say) -- their value is not known, so nothing about the term contradicts a rule"""
+            return sorted(str(x) for x in getattr(t, "free_symbols", ()) if str(x) in unset_locals)
+
         if not is_alloc:
             chk.ob("R11.3", wname + "::output-sized-from-array-argument", None, W, "the output array allocation was not recognised (stores go to %s)" % s0["base"])
         else:
-            chk.ob("R11.3", wname + "::output-sized-from-array-argument", bool(alloc.args[0] == 1 and asize is not None and is_size(asize)), W,
+            oks = bool(alloc.args[0] == 1 and asize is not None and is_size(asize))
+            if not oks and asize is not None and unknown_in(asize):
+                oks = None
+            chk.ob("R11.3", wname + "::output-sized-from-array-argument", oks, W,
                    "the 1-d output is allocated with the size of %s (allocation %s)" % (arr[:1], alloc))
-        chk.ob("R11.3", wname + "::loop-over-all-elements", bool(lo == 0 and is_size(hi + 1) and (asize is None or asize == hi + 1) and s0["index"] == IDX), W,
+        okl = bool(lo == 0 and is_size(hi + 1) and (asize is None or asize == hi + 1) and s0["index"] == IDX)
+        if not okl and lo == 0 and s0["index"] == IDX and unknown_in(hi):
+            okl = None
+        chk.ob("R11.3", wname + "::loop-over-all-elements", okl, W,
                "for i in [0, size of %s) (found [%s, %s), index %s)" % (arr[:1], lo, hi + 1, s0["index"]))
         if alloc is None or not is_alloc or not live:
             chk.ob("R11.3", wname + "::returns-new-array", None, W, "the returned object / its allocation was not recognised (returns %s)" % live)
@@ -1098,6 +1677,51 @@ class _Tag:
 
 _F8 = ("f8", "float64", "d", "double", "float", "=f8", "np.float64", "numpy.float64", "np.double", "np.float_", "np.float", "float")
 _UNKNOWN = _Tag("unknown")
+
+
+class _NT:
+    """an instance of a named tuple class: an immutable record, field -> value"""
+
+    def __init__(self, cls, fields, values):
+        self.cls, self.fields, self.values = cls, tuple(fields), tuple(values)
+
+    def get(self, name):
+        return self.values[self.fields.index(name)]
+
+    def __repr__(self):
+        return "%s(%s)" % (self.cls, ", ".join("%s=%r" % fv for fv in zip(self.fields, self.values)))
+
+
+def _namedtuple_fields(repo, mod, e):
+    """the field names when the module-level expression e is collections.namedtuple(name, fields) with literal fields, else None"""
+    if not (isinstance(e, ast.Call) and not e.keywords and len(e.args) == 2):
+        return None
+    dn = dotted_name(e.func)
+    if not dn or repo.resolve_name(mod, dn) not in ("collections.namedtuple", "namedtuple"):
+        return None
+    f = e.args[1]
+    if isinstance(f, ast.Constant) and isinstance(f.value, str):
+        names = f.value.replace(",", " ").split()
+    elif isinstance(f, (ast.List, ast.Tuple)) and all(isinstance(x, ast.Constant) and isinstance(x.value, str) for x in f.elts):
+        names = [x.value for x in f.elts]
+    else:
+        return None
+    return names if names and len(set(names)) == len(names) and all(n.isidentifier() and not n.startswith("_") for n in names) else None
+
+
+def _namedtuple_class_fields(cdef):
+    """the field names of `class X(NamedTuple): a: T; b: T` (no defaults, no methods that could shadow a field), else None"""
+    if not any((dotted_name(b) or "").split(".")[-1] == "NamedTuple" for b in cdef.bases):
+        return None
+    names = []
+    for st in cdef.body:
+        if isinstance(st, ast.AnnAssign) and isinstance(st.target, ast.Name) and st.value is None:
+            names.append(st.target.id)
+        elif isinstance(st, ast.Expr) and isinstance(st.value, ast.Constant):
+            continue
+        else:
+            return None
+    return names or None
 
 
 class _Interp:
@@ -1341,6 +1965,14 @@ class _Interp:
                 return _Tag("func", fi=self.repo.funcs[full])
             if e.id in fi.module.consts and isinstance(fi.module.consts[e.id], ast.Constant):
                 return fi.module.consts[e.id].value
+            if e.id in fi.module.consts:
+                nt = _namedtuple_fields(self.repo, fi.module, fi.module.consts[e.id])
+                if nt is not None:
+                    return _Tag("ntclass", name=e.id, fields=tuple(nt))
+            if e.id in fi.module.classes and e.id not in fi.module.imports:
+                nt = _namedtuple_class_fields(fi.module.classes[e.id])
+                if nt is not None:
+                    return _Tag("ntclass", name=e.id, fields=tuple(nt))
             return _Tag("global", name=full)
         if isinstance(e, ast.Tuple):
             return tuple(self.ev(x, env, fi, depth) for x in e.elts)
@@ -1364,6 +1996,10 @@ class _Interp:
                     return _Tag("dictget", of=b)
                 # the interpreter does not model updates of a mapping: anything that could be one is out of the subset
                 raise _Unsup("method %s of a mapping (line %s)" % (e.attr, getattr(e, "lineno", "?")))
+            if isinstance(b, _NT):
+                if e.attr in b.fields:
+                    return b.get(e.attr)
+                raise _Unsup("attribute %s of a named tuple (line %s)" % (e.attr, getattr(e, "lineno", "?")))
             if isinstance(b, _Arg) and e.attr == "size":
                 return _Tag("len", of=b.name)
             if isinstance(b, _Arg) and e.attr == "shape":
@@ -1434,6 +2070,8 @@ class _Interp:
                 if self.plain_key(kk) and kk in b:
                     return b[kk]
                 raise _Unsup("mapping subscript %s" % norm(e))
+            if isinstance(b, _NT):
+                b = b.values
             if isinstance(b, tuple):
                 kk = self.ev(e.slice, env, fi, depth)
                 if isinstance(kk, int) and not isinstance(kk, bool) and -len(b) <= kk < len(b):
@@ -1443,6 +2081,26 @@ class _Interp:
             return _UNKNOWN
         if isinstance(e, ast.JoinedStr):
             return _UNKNOWN
+        if isinstance(e, (ast.DictComp, ast.ListComp, ast.GeneratorExp)) and len(e.generators) == 1:
+            # a table built by a comprehension over a literal sequence: one entry per element, in order
+            g = e.generators[0]
+            seq = self.ev(g.iter, env, fi, depth)
+            if g.is_async or not isinstance(seq, tuple) or not all(self.plain_key(x) for x in seq):
+                raise _Unsup("comprehension over something that is not a literal sequence (line %s)" % getattr(e, "lineno", "?"))
+            items = []
+            for x in seq:
+                sub = dict(env)
+                self.bind(g.target, x, sub)
+                if not all(self.truth(c, sub, fi, depth) for c in g.ifs):
+                    continue
+                if isinstance(e, ast.DictComp):
+                    kk = self.ev(e.key, sub, fi, depth)
+                    if not self.plain_key(kk):
+                        raise _Unsup("mapping with a key the interpreter cannot compute (line %s)" % getattr(e, "lineno", "?"))
+                    items.append((kk, self.ev(e.value, sub, fi, depth)))
+                else:
+                    items.append(self.ev(e.elt, sub, fi, depth))
+            return dict(items) if isinstance(e, ast.DictComp) else tuple(items)
         if isinstance(e, ast.Call):
             return self.call(e, env, fi, depth)
         return _UNKNOWN
@@ -1495,6 +2153,10 @@ class _Interp:
         if isinstance(f, _Tag) and f.kind == "extmethod":
             self.calls.append((f.name, pos, kw))
             return _Tag("extresult", idx=len(self.calls) - 1)
+        if isinstance(f, _Tag) and f.kind == "ntclass":
+            if len(pos) > len(f.fields) or any(k not in f.fields[len(pos):] for k in kw) or len(pos) + len(kw) != len(f.fields):
+                raise _Unsup("named tuple %s constructed as %s" % (f.name, norm(c)))
+            return _NT(f.name, f.fields, list(pos) + [kw[k] for k in f.fields[len(pos):]])
         if isinstance(f, _Tag) and f.kind == "dictcopy" and not pos and not kw:
             return dict(f.of)
         if isinstance(f, _Tag) and f.kind == "dictget" and 1 <= len(pos) <= 2 and not kw and self.plain_key(pos[0]):
@@ -1520,6 +2182,8 @@ class _Interp:
             return _Tag("shape", of=pos[0].name)
         if name == "getattr" and len(pos) >= 2 and isinstance(pos[0], _Tag) and pos[0].kind == "ext" and isinstance(pos[1], str):
             return _Tag("extmethod", name=pos[1])
+        if name == "getattr" and len(pos) >= 2 and isinstance(pos[0], _Tag) and pos[0].kind == "extobj" and isinstance(pos[1], str):
+            return _Tag("extacc", obj=pos[0], name=pos[1])
         if name in ("bool", "float", "int", "str") and len(pos) == 1 and isinstance(pos[0], (bool, int, float, str)):
             return {"bool": bool, "float": float, "int": int, "str": str}[name](pos[0])
         if name and name.startswith("numpy.") and pos and isinstance(pos[0], _Arg):
@@ -1573,13 +2237,44 @@ class _Return(Exception):
         self.value = value
 
 
-def _run_paths(chk, repo, fi, argvals, rule, key):
-    """paths of fi on the abstract arguments, or None after reporting `not recognised`"""
+def _run_paths(chk, repo, fi, argvals, rule, key, on_object=False):
+    """paths of fi on the abstract arguments, or None after reporting `not recognised`.  on_object: when the method, run on an
+    object of which nothing is known, makes a call the interpreter cannot follow (a bound method or table the constructor stored
+    on the object), it is run again on objects built by abstract execution of the constructor, whose attributes are then known."""
     try:
-        return _Interp(repo).paths(fi, argvals)
+        outs, err = _Interp(repo).paths(fi, argvals), None
     except _Unsup as e:
-        chk.ob(rule, key, None, fi.where(), "the code reached from %s uses a construct outside the interpreted subset (%s)" % (fi.name, e))
-        return None
+        outs, err = None, e
+    if on_object and fi.cls and (outs is None or any(o.get("opaque") or (o["kind"] == "return" and not o["calls"]) for o in outs)):
+        try:
+            return _paths_on_object(repo, fi, argvals)
+        except _Unsup as e:
+            err = err or e
+    if outs is None:
+        chk.ob(rule, key, None, fi.where(), "the code reached from %s uses a construct outside the interpreted subset (%s)" % (fi.name, err))
+    return outs
+
+
+def _paths_on_object(repo, fi, argvals):
+    """paths of the method fi called on every kind of object the constructor builds (flat / curved, curvature given or not):
+    what the constructor stored on the object -- bound methods of the extension object, dispatch tables -- is followed"""
+    cls = "%s.%s" % (fi.module.name, fi.cls)
+    H0s = sp.Symbol("H0", positive=True)
+    M, Lm = sp.Symbol("omega_m", real=True), sp.Symbol("omega_l", real=True)
+    K = sp.Symbol("omega_k", real=True, nonzero=True)
+    outs = []
+    for flat_in, kval in ((True, None), (False, None), (True, K), (False, K), (False, 0.0)):
+        it = _ObjInterp(repo)
+
+        def thunk():
+            o = it.construct(cls, [], dict(H0=H0s, flat=flat_in, omega_m=M, omega_l=Lm, omega_k=kval), 0)
+            it.calls, it.opaque = [], []
+            return it.method(o, fi.name, list(argvals))
+
+        for o in it.explore(thunk):
+            if not any(o["kind"] == p_["kind"] and o["dec"] == p_["dec"] and repr((o["value"], o["calls"])) == repr((p_["value"], p_["calls"])) for p_ in outs):
+                outs.append(o)
+    return outs
 
 
 def _raise_hangs_on_unknown_test(o, outs):
@@ -1625,7 +2320,7 @@ def dispatch(chk, repo):
             for s2 in (True, False):
                 suffix = {(True, True): "", (False, True): "_vec1", (True, False): "_vec2", (False, False): "_2vec"}[(s1, s2)]
                 tag = "%s[%s %s,%s %s]" % (meth, a1, "scalar" if s1 else "array", a2, "scalar" if s2 else "array")
-                outs = _run_paths(chk, repo, fi, [_Arg(a1, s1), _Arg(a2, s2)], "R11.4", tag + "::selects-" + cq + suffix)
+                outs = _run_paths(chk, repo, fi, [_Arg(a1, s1), _Arg(a2, s2)], "R11.4", tag + "::selects-" + cq + suffix, on_object=True)
                 if outs is None:
                     continue
                 # paths on which two array arguments were found to differ in length are judged by the rejection rule below
@@ -1659,8 +2354,12 @@ def dispatch(chk, repo):
                         # the arguments before the call: that may be the length check
                         okg = None
                     chk.ob("R11.4", tag + "::length-mismatch-rejected", okg, fi.where(), "different lengths raise before the two-array call (paths with differing lengths: %s)" % [(o["kind"], [n for n, _, _ in o["calls"]]) for o in differ])
-        okr = bool(normal_all) and all(o["kind"] == "return" and isinstance(o["value"], _Tag) and o["value"].kind == "extresult" and o["value"].idx == len(o["calls"]) - 1 for o in normal_all)
-        if not normal_all and unknown_all:
+        def returns_result(o):
+            return o["kind"] == "return" and isinstance(o["value"], _Tag) and o["value"].kind == "extresult" and o["value"].idx == len(o["calls"]) - 1
+
+        okr = bool(normal_all) and all(returns_result(o) for o in normal_all)
+        if (not normal_all and unknown_all) or (not okr and normal_all and all(returns_result(o) or _blind(o) for o in normal_all)):
+            # every path that does not visibly return the extension's result is one on which the interpreter lost sight of the call
             okr = None
         chk.ob("R11.4", meth + "::returns-result", okr, fi.where(), "the extension's result is returned unmodified")
     for meth, cq in (("dV", "dV"), ("Ez_inverse", "ez_inverse")):
@@ -1668,7 +2367,7 @@ def dispatch(chk, repo):
         chk.analysed_unit(fi.qualname)
         for s_ in (True, False):
             key = "%s[z %s]" % (meth, "scalar" if s_ else "array")
-            outs = _run_paths(chk, repo, fi, [_Arg("z", s_)], "R11.4", key)
+            outs = _run_paths(chk, repo, fi, [_Arg("z", s_)], "R11.4", key, on_object=True)
             if outs is None:
                 continue
             want = cq + ("" if s_ else "_vec")
@@ -1681,7 +2380,7 @@ def dispatch(chk, repo):
             chk.ob("R11.4", key, ok, fi.where(), "dispatches to _cosmo.%s(z)%s and returns its result (found %s)" % (want, "" if s_ else " with z converted", [(o["kind"], o["calls"]) for o in outs]))
     for meth, cq in (("V", "V"), ("Ezinv_integral", "ez_inverse_integral")):
         fi = repo.func(CQ + "Cosmo." + meth)
-        outs = _run_paths(chk, repo, fi, [_Arg("zmin", True), _Arg("zmax", True)], "R11.4", meth + "::delegates")
+        outs = _run_paths(chk, repo, fi, [_Arg("zmin", True), _Arg("zmax", True)], "R11.4", meth + "::delegates", on_object=True)
         if outs is None:
             continue
         def good2(o):
@@ -1769,13 +2468,26 @@ def constructor(chk, repo, wrap, sem=None):
     mod = repo.module("esutil.cosmology.cosmology")
     cl = norm(mod.consts.get("_CLIGHT", ast.Constant(value=None)))
     chk.ob("R11.1", "constants::speed-of-light-python", abs(float(cl) - 299792.458) < 1e-9 if cl not in ("None",) else False, "esutil/cosmology/cosmology.py", "_CLIGHT = 299792.458 km/s (found %s)" % cl)
-    import re
-    hdr = open(__import__("os").path.join(__import__("vcheck.core", fromlist=["REPO"]).REPO, "esutil/cosmology/cosmolib.h")).read()
-    m = re.search(r"#define\s+CLIGHT\s+([0-9.eE+-]+)", hdr)
-    chk.ob("R11.1", "constants::speed-of-light-c-equals-python", bool(m) and cl != "None" and abs(float(m.group(1)) - float(cl)) < 1e-9, "esutil/cosmology/cosmolib.h", "C CLIGHT %s equals Python _CLIGHT %s" % (m.group(1) if m else None, cl))
-    m5 = re.search(r"#define\s+NPTS\s+(\d+)", hdr)
-    m10 = re.search(r"#define\s+VNPTS\s+(\d+)", hdr)
-    chk.ob("R11.2", "constants::documented-orders", bool(m5) and bool(m10) and m5.group(1) == "5" and m10.group(1) == "10", "esutil/cosmology/cosmolib.h", "NPTS = 5, VNPTS = 10 (documented fixed orders)")
+    try:
+        hdr = open(os.path.join(__import__("vcheck.core", fromlist=["REPO"]).REPO, "esutil/cosmology/cosmolib.h")).read()
+    except OSError:
+        hdr = ""
+    cc = _const_in_header(hdr, "CLIGHT")
+    used = [f for f in ("cosmolib.c", "cosmolib.h", "cosmolib_pywrap.c") if re.search(r"\bCLIGHT\b", _read_repo("esutil/cosmology/" + f))]
+    if cc is None and not used:
+        # the C sources neither define nor use a speed of light: D_H reaches C already formed (R11.5 hubble-distance), there is
+        # no second constant that could disagree with the Python one
+        chk.ob("R11.1", "constants::speed-of-light-c-equals-python", True, "esutil/cosmology/cosmolib.h", "the C sources define and use no speed of light of their own; the only one is Python's _CLIGHT %s" % cl)
+    else:
+        chk.ob("R11.1", "constants::speed-of-light-c-equals-python", None if (cc is None or cl == "None") else abs(cc - float(cl)) < 1e-9, "esutil/cosmology/cosmolib.h",
+               "C CLIGHT %s equals Python _CLIGHT %s%s" % (cc, cl, "" if cc is not None else " (CLIGHT occurs in %s in a form that is not a constant definition the checker reads)" % used))
+
+
+def _read_repo(rel):
+    try:
+        return open(os.path.join(__import__("vcheck.core", fromlist=["REPO"]).REPO, rel), encoding="utf-8", errors="replace").read()
+    except OSError:
+        return ""
 
 
 def copy_pickle(chk, repo, sem=None):
@@ -1871,9 +2583,10 @@ class _ObjInterp(_Interp):
             self.calls = []
             self.opaque = []
             try:
-                out.append({"kind": "return", "value": thunk(), "dec": dict(self.dec)})
+                v = thunk()
+                out.append({"kind": "return", "value": v, "dec": dict(self.dec), "calls": self.calls, "opaque": self.opaque})
             except _Raised as r:
-                out.append({"kind": "raise", "value": r.what, "dec": dict(self.dec)})
+                out.append({"kind": "raise", "value": r.what, "at": r.line, "dec": dict(self.dec), "calls": self.calls, "opaque": self.opaque})
             except _Need as n:
                 if len(self.dec) >= self.max_forks:
                     raise _Unsup("too many undecided tests")
@@ -1975,7 +2688,8 @@ class _ObjInterp(_Interp):
             if f.kind == "extacc":
                 if f.name in EXT_PARAMS and not pos and not kw:
                     return f.obj.args[EXT_PARAMS.index(f.name)]
-                return _UNKNOWN
+                self.calls.append((f.name, pos, kw))
+                return _Tag("extresult", idx=len(self.calls) - 1)
             if f.kind == "global":
                 if self.repo.class_of(f.name) is not None:
                     return self.construct(f.name, pos, kw, depth)
@@ -2097,7 +2811,12 @@ def object_state(chk, repo):
                 res = []
                 for o in outs:
                     a, b = o["value"]
-                    res += [_same3(x, y) for x, y in zip(a["ext"], b["ext"])] + [_same3(a["H0"], b["H0"])]
+                    r_ = [_same3(x, y) for x, y in zip(a["ext"], b["ext"])] + [_same3(a["H0"], b["H0"])]
+                    if any(k.startswith("test:") for k in o["dec"]):
+                        # a path that exists only because the interpreter could not decide a test (on a value it knows nothing
+                        # about) and tried both outcomes: it may be infeasible, so a difference found on it contradicts nothing
+                        r_ = [None if v is False else v for v in r_]
+                    res += r_
                 chk.ob("R11.6", key, rec(rname, hname, _all3(res)), W,
                        "Cosmo(%s): the object obtained through %s has the same H0() and builds its extension object from the same (D_H, flat, omega_m, omega_l, omega_k) (original %s, duplicate %s)"
                        % (case, rname, [o["value"][0] for o in outs], [o["value"][1] for o in outs]))
